@@ -12,6 +12,7 @@ import (
 	"bytes"
 	stdjson "encoding/json"
 	"fmt"
+	"math"
 	"math/big"
 	"reflect"
 	"sort"
@@ -402,7 +403,93 @@ func c14String(c *Ctx, k strCase) {
 // c14AfterFailures: the flags change the representation, never the meaning - also right behind an Append that failed
 // half-way under the same flags (the encoders keep pooled scratch: sort tables, buffers): maps of every specialised
 // kind, sorted and unsorted, after failed encodes of maps of every kind
+// c14ErrorParity: whether Append fails does not depend on the flags.  Values that hold no RawMessage at all, with
+// marshal methods whose output is not one JSON value (TrustRawMessage speaks of raw messages only), methods that
+// fail, and values no flag makes encodable; next to them the same shapes with output that is fine
+type c14OutM struct{ Out string }
+
+func (m c14OutM) MarshalJSON() ([]byte, error) { return []byte(m.Out), nil }
+
+type c14OutPM struct{ Out string }
+
+func (m *c14OutPM) MarshalJSON() ([]byte, error) { return []byte(m.Out), nil }
+
+type c14ErrT struct{ Fail bool }
+
+func (m c14ErrT) MarshalText() ([]byte, error) {
+	if m.Fail {
+		return nil, fmt.Errorf("no text")
+	}
+	return []byte("t<x>"), nil
+}
+
+func c14ErrorParity(c *Ctx) {
+	outs := []string{"", "tru", "[1,2", `{"k":1}}`, " ", "1 2", `"abc`, "nul", "{\"a\":}", "01", "-", "[1,]", "\x00",
+		"true", " [1 , 2] ", `{"k":"<v>"}`, `"s"`, "null", "-0.5e1"}
+	for oi, o := range outs {
+		m := c14OutM{o}
+		vals := []any{m, &m, []c14OutM{{"1"}, m}, map[string]c14OutM{"a": {"2"}, "b": m}, struct {
+			A int
+			M c14OutM
+		}{1, m}, []any{m}, &c14OutPM{o}, []*c14OutPM{{o}}, map[string]any{"k": &c14OutPM{o}}}
+		for vi, v := range vals {
+			c14Parity(c, c14Case{Kind: "parity", VI: oi*100 + vi}, v)
+		}
+	}
+	for vi, v := range []any{c14ErrT{true}, c14ErrT{false}, map[c14ErrT]int{{true}: 1}, map[c14ErrT]int{{false}: 1}, []any{1, c14ErrT{true}},
+		math.NaN(), []float64{1, math.Inf(-1)}, map[string]float32{"k": float32(math.NaN())}, stdjson.Number("1e"), []json.Number{"1", "1.", "--1"},
+		json.Number(""), map[string]any{"c": make(chan int)}, func() {}, struct{ F func() }{}, struct {
+			F func() `json:"-"`
+			A int
+		}{nil, 1}, failingMarshaler{}, []any{failingMarshaler{}}} {
+		c14Parity(c, c14Case{Kind: "parity", VI: 10000 + vi}, v)
+	}
+}
+
+func c14Parity(c *Ctx, k c14Case, v any) {
+	def, derr := json.Append(nil, v, json.EscapeHTML|json.SortMapKeys)
+	std, serr := stdjson.Marshal(v)
+	c.Case()
+	if (derr == nil) != (serr == nil) {
+		// (C01's business; here only the flags are compared)
+		return
+	}
+	var want any
+	if serr == nil {
+		var err error
+		if want, err = genericOf(std); err != nil {
+			c.SpecError("C14", "encoding/json wrote what it cannot read", k)
+			return
+		}
+	}
+	_ = def
+	for mask := 0; mask < 8; mask++ {
+		fl, names := subsetFlags(mask)
+		var out []byte
+		var err error
+		c.Eval(1)
+		k.A = mask
+		if p := protect(func() { out, err = json.Append(nil, v, fl) }); p != "" {
+			c.Diverge("C14", "json.Append(a value without raw messages)", "no panic", p, "", k)
+			return
+		}
+		if (err == nil) != (derr == nil) {
+			c.Diverge("C14", "json.Append(a value without raw messages)", fmt.Sprintf("err=%v as with the default flags", derr),
+				fmt.Sprintf("err=%v out=%s under %v for %T %+v", err, clipS(string(out)), names, v, v), "", k)
+			return
+		}
+		if err == nil {
+			got, gerr := genericOf(out)
+			if gerr != nil || !reflect.DeepEqual(got, want) {
+				c.Diverge("C14", "json.Append(a value without raw messages)", clipS(string(std)), fmt.Sprintf("%s (%v) under %v", clipS(string(out)), gerr, names), "", k)
+				return
+			}
+		}
+	}
+}
+
 func c14AfterFailures(c *Ctx) {
+	c14ErrorParity(c)
 	bad := json.RawMessage(`{"broken`)
 	failing := []any{
 		map[string]json.RawMessage{"zz": json.RawMessage(`1`), "a": bad, "m": json.RawMessage(`2`)},
@@ -531,7 +618,7 @@ func c14Replay(c *Ctx, raw stdjson.RawMessage) {
 		c14Number(c, k)
 		return
 	}
-	if k.Kind == "afterfailure" {
+	if k.Kind == "afterfailure" || k.Kind == "parity" {
 		c14AfterFailures(c)
 		return
 	}
